@@ -351,6 +351,78 @@ func c12ShuffleKeyPerValidator(c *core.Ctx) {
 			"the hashed input is built in the iteration from that validator's PubKey()",
 			"the input hashed for a validator is "+core.ExprKey(v)+", a buffer that lives across iterations (built in this iteration: "+fmt.Sprint(inIter)+"): keys of different lengths leave stale or truncated bytes in it, two validators get one hash, and the map keyed by the hash puts one of them in two places and the other in none")
 	})
+	if n == 0 {
+		// the key is built by a helper called once per iteration: the same test inside the helper, the
+		// validator being the helper's parameter and the argument a value of the iteration
+		core.Instrs(fn, func(in ssa.Instruction) {
+			cc := core.CallOf(in)
+			if cc == nil || cc.StaticCallee() == nil || cc.StaticCallee().Blocks == nil || cc.StaticCallee().Pkg != fn.Pkg {
+				return
+			}
+			l := core.InnermostLoop(fn, in.Block())
+			if l == nil {
+				return
+			}
+			h := cc.StaticCallee()
+			core.Instrs(h, func(hin ssa.Instruction) {
+				hc := core.CallOf(hin)
+				if hc == nil || core.CallDesc(hc).Name != "Compute" {
+					return
+				}
+				n++
+				c.Analysed(fname(h))
+				v := hc.Args[len(hc.Args)-1]
+				for {
+					if cv, ok := v.(*ssa.Convert); ok {
+						v = cv.X
+						continue
+					}
+					break
+				}
+				base := v
+				for {
+					if sl, ok := base.(*ssa.Slice); ok {
+						base = sl.X
+						continue
+					}
+					break
+				}
+				_, isI := base.(ssa.Instruction)
+				if _, isLoad := base.(*ssa.UnOp); isLoad {
+					isI = false
+				}
+				if core.InnermostLoop(h, hin.Block()) != nil {
+					isI = false // a loop of the helper's own is not this rule's shape
+				}
+				fromKey := false
+				if isI {
+					for x := range core.BackwardReachPure(v) {
+						call, ok := x.(*ssa.Call)
+						if !ok || core.CallDesc(&call.Call).Name != "PubKey" {
+							continue
+						}
+						recv := call.Call.Value
+						if !call.Call.IsInvoke() && len(call.Call.Args) > 0 {
+							recv = call.Call.Args[0]
+						}
+						for i, p := range h.Params {
+							if ssa.Value(p) != recv || i >= len(cc.Args) {
+								continue
+							}
+							if ai, ok := cc.Args[i].(ssa.Instruction); ok && l.Body[ai.Block()] {
+								if ph, isPhi := cc.Args[i].(*ssa.Phi); !isPhi || ph.Block() != l.Header {
+									fromKey = true
+								}
+							}
+						}
+					}
+				}
+				c.Check(isI && fromKey, "C12/shuffle-key-built-per-validator", fmt.Sprintf("shuffleList/%s/Compute#%d", h.Name(), n), hin.Pos(),
+					"the hashed input is built by the helper from its validator's PubKey(), the validator being the iteration's",
+					"the input hashed for a validator is "+core.ExprKey(v)+", not a value the helper builds from the PubKey() of the validator the iteration hands it: two validators get one hash, and the map keyed by the hash puts one of them in two places and the other in none")
+			})
+		})
+	}
 	c.Floor("C12/shuffle-key-built-per-validator", 1)
 }
 
